@@ -224,7 +224,15 @@ def rule_other_caches(ctx):
     C19.rule_R4(R.Retag(ctx, "C19."))
 
 
+def rule_worker_capacity(ctx):
+    """every worker gets the configured capacity and the shared configuration unchanged: connections within the configured limits never evict each other"""
+    from . import _workers as W
+    for crate, fam in (("huginn_net_tcp", "tcp"), ("huginn_net_http", "http"), ("huginn_net_tls", "tls")):
+        W.uniform_workers(ctx, ctx.program, crate, fam, "W.R2")
+
+
 def run(ctx):
+    rule_worker_capacity(ctx)
     rule_other_caches(ctx)
     rule_R1(ctx)
     rule_R2_R3(ctx)
